@@ -47,6 +47,12 @@ def run(repo, chk, tier):
     from .c05 import clause_a2
 
     clause_a2(repo, chk)
+    # which frame / alignment convention is applied is chosen by options (random_z, r_boost, center_mass ...); the
+    # direct and the identical-particle-exchanged term must be given the same ones, and the azimuth bookkeeping of the
+    # alignment must hold for every daughter: the forwarding and reference clauses of C02, shared
+    from . import c02
+
+    c02.run(repo, chk, tier)
 
 
 def nonneg(repo, chk):
